@@ -6518,6 +6518,9 @@ impl Machine {
 
     #[inline(always)]
     pub(crate) fn get_ball(&mut self) {
+        #[cfg(feature = "verif_hooks")]
+        crate::machine::verif_hooks::on_get_ball(self);
+
         let addr = self.deref_register(1);
         let h = if !self.machine_st.ball.stub.is_empty() {
             step_or_resource_error!(
